@@ -95,6 +95,14 @@ func (node *Node) processUnconfirmedTx(ctx context.Context, tx handlers.TxData) 
 
 	logger.Info(ctx, "Tx is relevant : %s", hash)
 
+	// A tx that was already delivered with a merkle proof is confirmed. A later announcement of it
+	// (peers rebroadcasting) is not a new tx and it must not be tracked as unconfirmed again.
+	if confirmed, err := handlerstorage.FetchTxState(ctx, node.store, *hash); err == nil &&
+		confirmed.State.MerkleProof != nil {
+		logger.Info(ctx, "Tx already confirmed : %s", hash)
+		return nil
+	}
+
 	// We have to succesfully add to tx repo because it is protected by a lock and will prevent
 	// processing the same tx twice at the same time.
 	added, newlySafe, err := node.txs.Add(ctx, *hash, tx.Trusted, tx.Safe, -1)
